@@ -71,6 +71,10 @@ func verdictOf(info *types.Info, r *ast.ReturnStmt) string {
 			v = kv.Value
 		}
 		if id, ok := ast.Unparen(v).(*ast.Ident); ok {
+			// a verdict carried in a variable (verdict := IGNORE; …; verdict = REJECT; …) is not one verdict
+			if _, isConst := info.ObjectOf(id).(*types.Const); !isConst {
+				return "?"
+			}
 			return id.Name
 		}
 		if sel, ok := ast.Unparen(v).(*ast.SelectorExpr); ok {
@@ -165,7 +169,9 @@ func ruleGossipMark(c *Ctx) {
 					bad = r.r
 				}
 			}
-			if bad != nil {
+			if bad != nil && verdictOf(info, bad) == "?" {
+				c.unm(key, mc.Pos(), "%s is followed by a return whose verdict is carried in a variable (%s): which verdicts can follow the mark is not read", name, c.P.rel(bad.Pos()))
+			} else if bad != nil {
 				c.bad(key, mc.Pos(), "%s marks the seen-cache and the validator can still return %s afterwards (%s): a refused message suppresses its own later redelivery", name, verdictOf(info, bad), c.P.rel(bad.Pos()))
 			} else {
 				c.ok(key, mc.Pos(), "only ACCEPT is reachable after the mark")
@@ -433,15 +439,21 @@ func ruleGossipVerdict(c *Ctx) {
 			v   string
 		}
 		var rets []vret
+		var varVerdict *ast.ReturnStmt
 		for _, b := range gr.Blocks {
 			if !b.Live || len(b.Nodes) == 0 {
 				continue
 			}
 			if r, ok := b.Nodes[len(b.Nodes)-1].(*ast.ReturnStmt); ok {
-				if v := verdictOf(info, r); v != "" {
+				if v := verdictOf(info, r); v == "?" {
+					varVerdict = r
+				} else if v != "" {
 					rets = append(rets, vret{b, r, v})
 				}
 			}
+		}
+		if varVerdict != nil {
+			c.unm(fn+".verdict[variable]", varVerdict.Pos(), "%s returns a verdict carried in a variable that is set along the way: which outcome leads to which verdict is not read off such a return", fn)
 		}
 		preds := map[*cfg.Block][]*cfg.Block{}
 		for _, b := range gr.Blocks {
